@@ -130,10 +130,9 @@ def m_fields(ex, st, args, kwargs, node):
 
 def m_b64encode(ex, st, args, kwargs, node):
     v = args[0]
-    if isinstance(v, PTok) and v.what == "bin":
-        return [(st, PTok("b64", v.a))]
-    if isinstance(v, PV) and z3.is_true(sp.norm(V.is_Bytes(v.t))):       # bytes / bytearray passed directly
-        return [(st, PTok("b64", sp.norm(V.bp(v.t))))]
+    b_ = ex.as_bin(st, v)
+    if b_ is not None:                                                    # a bytes object in either representation
+        return [(st, PTok("b64", b_))]
     return ex.havoc_call(st, "b64encode", args, node)
 
 
@@ -154,8 +153,9 @@ def m_b64decode(ex, st, args, kwargs, node):
 
 def m_new_bytesio(ex, st, args, kwargs, node):
     v = args[0] if args else None
-    if isinstance(v, PTok) and v.what == "bin":
-        return [(st, PV(V.BytesIO(v.a)))]
+    b_ = ex.as_bin(st, v) if v is not None else None
+    if b_ is not None:
+        return [(st, PV(V.BytesIO(b_)))]
     return ex.havoc_call(st, "io.BytesIO", args, node)
 
 
@@ -194,6 +194,23 @@ def install_models(reg):
     reg.ext_models["typing.get_origin"] = m_get_origin
     reg.ext_models["typing.get_args"] = m_get_args
     reg.ext_models["typing.get_type_hints"] = m_get_type_hints
+    for nm_ in ("binascii.a2b_base64",):
+        reg.ext_models[nm_] = m_b64decode
+    reg.ext_models["binascii.b2a_base64"] = lambda ex, st, args, kwargs, node: (
+        m_b64encode(ex, st, args, {}, node) if isinstance(kwargs.get("newline"), VBool) and kwargs["newline"].const() is False
+        else ex.havoc_call(st, "binascii.b2a_base64", args, node))
+    from contracts.c05exec import TEMPORAL_CTORS
+
+    def temporal(kind):
+        def mk(ex, st, args, kwargs, node):
+            ex.exc_any(st.fork(), f"{ex.loc(node)} temporal constructor")
+            return [(st, PV(V.Other(z3.IntVal(kind))))]
+        return mk
+    for nm_, k_ in TEMPORAL_CTORS.items():
+        reg.ext_models[nm_] = temporal(k_)
+        reg.ext_models[("new", nm_)] = temporal(k_)
+        reg.ext_models[("new", nm_.split(".")[-1])] = temporal(k_)
+    reg.attr_models[("Elem", "attrib")] = lambda ex, st, o: PTok("attrib", o)
     reg.ext_models[("const", "io.BytesIO")] = VType("io.BytesIO")
     reg.ext_models[("new", "io.BytesIO")] = m_new_bytesio
     reg.ext_models[("const", "typing.Any")] = VType("typing.Any")
@@ -566,14 +583,20 @@ def main_contract(res_spec, unit_spec):
         if code != 0:
             return T                                        # failures: C01's business
         a = g.get("cli_args")
-        writes = g.get("stdout_written", [])
+        # print(x) to stdout (no file= / file=sys.stdout, default sep and end) is write(x); write("\n")
+        events = list(g.get("stdout_events", []))
+        for pargs, pfile in g.get("prints", ()):
+            if pfile is None or (hasattr(pfile, "a") and getattr(pfile, "a", None) == "sys.stdout"):
+                events.append(("print", pargs[0] if len(pargs) == 1 else NONE))
+        g2 = dict(g, stdout_events=events)
+        writes = stdout_pieces(c.ex, c.st, g2)
         if a is None:
             c.note = "arguments were not parsed on this path"
             return F
         jsonmode = z3.Or(A_JSON(a), A_UNIT(a))
         dumped = g.get("json_dumped", {})
-        if len(writes) == 2 and isinstance(writes[0], VStr) and writes[0].t.get_id() in dumped and isinstance(writes[1], VStr) and writes[1].const() == "\n":
-            val, kws = dumped[writes[0].t.get_id()]
+        if writes is not None and len(writes) == 2 and writes[0].get_id() in dumped and z3.is_string_value(writes[1]) and writes[1].as_string() == "\n":
+            val, kws = dumped[writes[0].get_id()]
             if kws:
                 c.note = f"json.dumps called with {sorted(kws)}: not the standard encoder's defaults (ensure_ascii etc.)"
                 return z3.And(z3.Not(jsonmode), marker(UNMODELLED))
@@ -583,7 +606,7 @@ def main_contract(res_spec, unit_spec):
             b = A_BIN(a)
             eq = lambda spec: z3.And([z3.Implies(cond, c.ex._eqv(c.st, val, want)) for cond, want in spec])
             return z3.Implies(jsonmode, z3.If(A_UNIT(a), eq(unit_spec(n, b)), eq(res_spec(n, b))))
-        c.note = f"{len(writes)} write(s) to stdout that are not `json.dumps(payload)` + newline"
+        c.note = f"{len(writes) if writes is not None else '?'} piece(s) written to stdout that are not `json.dumps(payload)` + newline"
         return z3.Not(jsonmode)
 
     out = [FnContract(target="sharepoint2text/__init__.py::read_file", params=[("path", p_unk())], assumed=True,
@@ -599,6 +622,47 @@ def main_contract(res_spec, unit_spec):
     return out
 
 
+JSON_DUMPS_DEFAULTS = {"skipkeys": False, "ensure_ascii": True, "check_circular": True, "allow_nan": True, "cls": None, "indent": None,
+                       "separators": None, "default": None, "sort_keys": False}
+
+
+def non_default_dumps_kwargs(kwargs):
+    """Keyword arguments of json.dumps that differ (or may differ) from the standard encoder's defaults."""
+    out = {}
+    for k, v in kwargs.items():
+        if k == "obj":
+            continue
+        if k in JSON_DUMPS_DEFAULTS:
+            want = JSON_DUMPS_DEFAULTS[k]
+            if want is None and v is NONE:
+                continue
+            if isinstance(want, bool) and isinstance(v, VBool) and v.const() is want:
+                continue
+        out[k] = v
+    return out
+
+
+def stdout_pieces(ex, st, g):
+    """What reached stdout on this path, as a flat list of string pieces: sys.stdout.write(a + b) == write(a); write(b);
+    print(x) == write(x); write('\\n') (file omitted / sys.stdout, default sep / end)."""
+    events = list(g.get("stdout_events", []))
+    pieces = []
+
+    def flat(t):
+        if z3.is_app(t) and t.decl().kind() == z3.Z3_OP_SEQ_CONCAT:
+            for ch in t.children():
+                flat(ch)
+        else:
+            pieces.append(t)
+    for kind, val in events:
+        if not isinstance(val, VStr):
+            return None
+        flat(val.t)
+        if kind == "print":
+            pieces.append(z3.StringVal("\n"))
+    return pieces
+
+
 def install_cli_models(reg):
     def m_parse(ex, st, obj, args, kwargs, node):
         ex.raise_in(ex.mark(st.fork()), ex.mk_exc("SystemExit"))
@@ -610,14 +674,14 @@ def install_cli_models(reg):
 
     def m_write(ex, st, args, kwargs, node):
         ex.exc_any(st.fork(), f"{ex.loc(node)} sys.stdout.write")
-        st.ghost["stdout_written"] = st.ghost.get("stdout_written", []) + [args[0] if args else NONE]
+        st.ghost["stdout_events"] = st.ghost.get("stdout_events", []) + [("write", args[0] if args else NONE)]
         return [(st, VUnk("n"))]
 
     def m_dumps(ex, st, args, kwargs, node):
         ex.exc_any(st.fork(), f"{ex.loc(node)} json.dumps")
         t = VStr(z3.String(fresh_name("json_text")))
         d = dict(st.ghost.get("json_dumped", {}))
-        d[t.t.get_id()] = (args[0] if args else NONE, dict(kwargs))
+        d[t.t.get_id()] = (args[0] if args else kwargs.get("obj", NONE), non_default_dumps_kwargs(kwargs))
         st.ghost["json_dumped"] = d
         st.ghost.setdefault("_keep", []).append(t.t)
         return [(st, t)]
@@ -725,12 +789,14 @@ def store_site_contracts(reg):
         params=[("cell_value", p_pv(only=("None", "Bool", "Int", "Float", "Str", "Other"),
                                     other_kinds=(sp.K_DATETIME, sp.K_DATE, sp.K_TIME, sp.K_TIMEDELTA)))],
         ensures=[("json-able-scalar-into-Any-field", lambda c: result_scalar(c))],
+        raises=[Raises("Exception", sub=True, label="failures of the normaliser are C01's business")],
         note="what XlsxSheet.data (List[List[Any]] / TableData.data) receives: None/bool/int/float/str only. Input kinds: the value "
              "types openpyxl's reader produces (None, bool, int, float, str, datetime, date, time, timedelta)"))
     out.append(FnContract(
         target=f"{XLS_PY}::_get_cell_values",
         params=[("cell", p_xlrd_cell()), ("workbook", p_unk())],
         ensures=[("json-able-scalar-into-Any-field", lambda c: result_scalar(c, 0))],
+        raises=[Raises("Exception", sub=True, label="failures of the normaliser are C01's business")],
         note="what XlsSheet.data (List[Dict[str, Any]]) receives as value: None/bool/int/float/str only"))
     from contracts import etree_model
     from contracts.c02_etree_model import p_elem
